@@ -104,9 +104,20 @@ def mon_features(beh):
                     "CancelCall": "cancel-before-lock", "CancelSkip": "idle", "FgLock": "cancel-holding-submux",
                     "FgDelete": "cancel-holding-submux" if appst.get(p) == "cancel-holding-submux" else "idle",
                     "FgPause": "cancel-holding-submux", "FgUnlock": "idle"}.get(a, appst.get(p, "idle"))
-        if a == "FgDelete":
-            # FgDelete ends the call unless the pause signal follows
-            pass
+    # which reconnect path has to bring a registered subscription back (the publish loop must run again)
+    reg, transferred = set(), False
+    for st in beh["steps"]:
+        p, a, x = st["p"], st["a"], st.get("x")
+        if a == "SubReg":
+            reg.add(x)
+        elif a == "FgDelete":
+            reg.discard(x)
+        elif a == "Fault":
+            transferred = False
+        elif p == "mon" and a == "Transfer":
+            transferred = True
+        elif p == "mon" and a == "RestoreSubs" and reg:
+            f.add("0-session-recreated-with-registered-subscription" if transferred else "0-session-restored-with-registered-subscription")
     return f
 
 
@@ -118,7 +129,7 @@ def pick_mon(rows, n, seed):
     rows.sort(key=lambda b: len(b["steps"]))
     feats = {id(b): mon_features(b) for b in rows}
     allf = sorted(set().union(*feats.values())) if rows else []
-    allf.sort(key=lambda x: (0 if x.endswith("@RestoreSubs") else 1, x))
+    allf.sort(key=lambda x: (0 if x.startswith("0-") else 1 if x.endswith("@RestoreSubs") else 2, x))
     chosen, covered = [], set()
     for ft in allf:
         if ft in covered or len(chosen) >= n:
@@ -451,7 +462,11 @@ def run_faults(run, vf, prop):
     run.log("TLC: %d sampled behaviours -> %d distinct fault scenarios, running %d" % (len(res[1].rows), len(rows), len(cases)))
     if not cases:
         raise vf.Inconclusive("no fault scenario generated")
-    results = run.go_run(exe[0], ["-mode", "faults", "-par", str(run.pick(10, 12))], cases=cases, timeout=run.pick(1200, 3300))
+    stream_out = [None]
+    both = [lambda: run.go_run(exe[0], ["-mode", "faults", "-par", str(run.pick(10, 12))], cases=cases, timeout=run.pick(1200, 3300))]
+    if prop == "C26":
+        both.append(lambda: stream_out.__setitem__(0, run_stream(run, vf, exe[0], res[5])))
+    results = run.parallel(*both)[0]
     if len(results) != len(cases):
         raise vf.Inconclusive("harness returned %d results for %d cases" % (len(results), len(cases)))
     byid = {c["id"]: c for c in cases}
@@ -475,10 +490,7 @@ def run_faults(run, vf, prop):
             recs = normalize_life(tr)
             traces.append((r["case"], "\n".join(json.dumps(x) for x in recs) + "\n", len(recs)))
     run.absorb(results)
-    ack_only = []
-    if prop == "C26":
-        stream_traces, _ = run_stream(run, vf, exe[0], res[5])
-        ack_only = stream_traces
+    ack_only = stream_out[0][0] if stream_out[0] else []
     if run.cov.get("undriven", 0) * 3 > len(cases):
         raise vf.Inconclusive("%d of %d scenarios could not be driven" % (run.cov["undriven"], len(cases)))
 
